@@ -249,7 +249,8 @@ Theorem collect_char B src : sz B <> 0 ->
     firstn (List.length src) bytes = src /\
     skipn (List.length src) bytes = repeat 0 (N.to_nat (n * sz B) - List.length src)%nat.
 Proof.
-  intros Hs. unfold pod_collect_to_vec. rewrite (collect_count_spec _ _ Hs). cbn [bind].
+  intros Hs. unfold pod_collect_to_vec. pose proof Hs as Hs'. apply N.eqb_neq in Hs'. rewrite Hs'.
+  rewrite (collect_count_spec _ _ Hs). cbn [bind].
   eexists. eexists. split; [reflexivity|]. split; [reflexivity|].
   set (n := ceil_div (N.of_nat (List.length src)) (sz B)).
   assert (Hge : N.of_nat (List.length src) <= n * sz B).
@@ -261,10 +262,21 @@ Proof.
   - rewrite skipn_app, Nat.sub_diag, skipn_all. cbn. reflexivity.
 Qed.
 
-(* the defect of the pinned tree: a zero-sized target makes the count computation divide by zero,
-   for every source, the empty one included *)
-Theorem collect_zst_target_panics B src : sz B = 0 -> pod_collect_to_vec B src = Panic W_div_zero.
-Proof. intros Hz. unfold pod_collect_to_vec, collect_count, div_m. rewrite Hz. reflexivity. Qed.
+(* the count computation alone divides by zero for a zero-sized target: this is the defect the
+   pinned tree had (known_findings.json, fixed), and why the guard is there *)
+Theorem collect_count_unguarded_panics n : collect_count n 0 = Panic W_div_zero.
+Proof. reflexivity. Qed.
+
+(* with the guard, the function never panics, whatever the target *)
+Theorem collect_total B src : exists r, pod_collect_to_vec B src = Ret r.
+Proof.
+  destruct (N.eq_dec (sz B) 0) as [Z|NZ].
+  - unfold pod_collect_to_vec. rewrite Z. rewrite N.eqb_refl. eauto.
+  - destruct (collect_char B src NZ) as (n & bytes & H & _). eauto.
+Qed.
+
+Theorem collect_zst_target B src : sz B = 0 -> pod_collect_to_vec B src = Ret (0, []).
+Proof. intros Z. unfold pod_collect_to_vec. rewrite Z, N.eqb_refl. reflexivity. Qed.
 
 (* ---- try_zeroed family (C12, allocation half) ---- *)
 Theorem zeroed_slice_box_char T n ok :
